@@ -50,7 +50,7 @@ def canon_answer(ans):
         return "panic nan"  # log2_bounds(NaN): both builds panic, with different messages
     return ans
 
-LEVEL_TEXT = ("Machine-checked Coq theorems (84 pinned in coq/props/C12.v, all inputs unless a finite domain is stated): complete "
+LEVEL_TEXT = ("Machine-checked Coq theorems (86 pinned in coq/props/C12.v, all inputs unless a finite domain is stated): complete "
               "certificates (a checked gcd/Bezout, root, root-with-remainder, integer-logarithm or remove answer IS the gcd / truncated "
               "root / floor logarithm / full power); as-is models proved against them: the Karatsuba square root kernel of "
               "integer/src/root.rs (sqrt_rem / sqrt_rem_42: recursive split, division by s1 with the r1 carry trick, q == B overflow, odd "
@@ -62,8 +62,8 @@ LEVEL_TEXT = ("Machine-checked Coq theorems (84 pinned in coq/props/C12.v, all i
               "gcd_large returns the gcd and gcd_ext_large (g, s, t) with g = gcd = s*x + t*y; the Newton n-th root iteration of "
               "UBig/IBig::nth_root and cbrt; the three estimate-then-correct logarithm loops for ANY estimate, the shortcuts of ilog; "
               "remove(); the primitive binary gcd and Euclidean gcd_ext for every type width; primitive roots of base/src/ring/root.rs: "
-              "correction loops exact from any underestimate (all n), every answer of the u8/u16/u32/u64 table+Newton routines and "
-              "wrappers is the exact root and remainder (all inputs), every u8/u16 input answered within 3 corrections (finite, by "
+              "correction loops exact from any underestimate (all n), every answer of the u8/u16/u32/u64 table+Newton routines, of the u128 "
+              "Karatsuba-step square root and of the wrappers is the exact root and remainder (all inputs), every u8/u16 input answered within 3 corrections (finite, by "
               "computation), tables / guard constants / MIN_DWORD_GUESS_LEN regenerated from the source; the no_std log2 estimator proved "
               "an enclosure for EVERY u8/u16 value (finite domain 0..65535) and, by the shift argument with exact f32 next_up/next_down "
               "on bit patterns, for every wider unsigned value below 2^65000; the bracket decision procedure that judges log2_bounds "
@@ -72,7 +72,7 @@ LEVEL_NOTE = ("Partial where said: the Karatsuba kernel takes div_rem_in_place, 
               "(C02 / C01 / primitive roots) and models slices as values with lengths, not word lists; the Lehmer model is value level "
               "(lehmer_step / lehmer_ext_step word loops and buffer lengths are not modelled; that the guessed step never goes negative is "
               "a checked panic branch of the model, observed never to fire, not proved); for u32/u64 primitive roots only soundness of "
-              "an answer is proved for all inputs, that the Newton estimate never overshoots (no panic) and the u128 routines are "
+              "an answer is proved for all inputs, that the Newton estimate never overshoots (no panic) and the u128 cube root are "
               "compared per instance. The std log2 estimator depends on libm's f32::log2 (proofs under an explicit libm contract exist "
               "in Int/GrlLog2StdProof.v but are not pinned: the interval tactic brings in the primitive-float axioms); the "
               "big-integer/float/rational compositions and the floating-point estimate inside ilog are checked per instance "
@@ -99,7 +99,7 @@ TRUSTED_BASE = [
     "extraction: ExtrOcamlBasic + ExtrOcamlZBigInt + coq/extract/FastZ.v directives (Z.gcd/Z.sqrt/Z.pow/Z.log2/shifts -> zarith)",
     "OCaml 4.13.1 + zarith 1.12, oracle/common.ml, oracle/driver_c12.ml (decoding of answers, choice of bracket precision); Rust harness harness/src/bin/c12.rs; hook dashu_int::verif_hooks::sqrt_rem_kernel",
     "contracts used by the Karatsuba model: div::div_rem_in_place (C02), sqr::sqr (C01), DoubleWord::sqrt_rem (primitive roots); value-level reading of word slices (C01/C02/C09 prove the word layer)",
-    "Lehmer gcd: word loops of lehmer_step / lehmer_ext_step and buffer bookkeeping are not modelled; u128 primitive roots and the no-overshoot of the u32/u64 Newton estimates are compared per instance",
+    "Lehmer gcd: word loops of lehmer_step / lehmer_ext_step and buffer bookkeeping are not modelled; the u128 cube root and the no-overshoot of the u32/u64 Newton estimates are compared per instance",
     "std log2 estimator: libm f32::log2/f64::log2 behaviour is observed only",
     "tools/translate.py (LOG2_TAB) and tools/translate_c12_r3.py (RSQRT_TAB, RCBRT_TAB, guard constants, MIN_DWORD_GUESS_LEN): regular-expression readers of the Rust sources",
 ]
